@@ -34,7 +34,23 @@ theorem le_bytes (k n : Nat) : ∀ b ∈ le k n, b < 256 := by
     · exact ih _ b hb
 
 theorem takeN_append (xs rest : Bytes) : takeN xs.length (xs ++ rest) = .ok (xs, rest) := by
-  simp [takeN]
+  induction xs with
+  | nil => cases rest <;> rfl
+  | cons x xs ih => simp [takeN, ih]
+
+/-- `takeN` is `io.ReadFull`: all or nothing, never a short read -/
+theorem takeN_spec (k : Nat) (bs : Bytes) :
+    takeN k bs = if bs.length < k then .error .eof else .ok (bs.take k, bs.drop k) := by
+  induction k generalizing bs with
+  | zero => cases bs <;> simp [takeN]
+  | succ k ih =>
+    cases bs with
+    | nil => simp [takeN]
+    | cons b bs =>
+      simp only [takeN, ih bs, List.length_cons, List.take_succ_cons, List.drop_succ_cons]
+      by_cases h : bs.length < k
+      · simp [h]
+      · simp [h]
 
 theorem takeN_append' (k : Nat) (xs rest : Bytes) (h : xs.length = k) :
     takeN k (xs ++ rest) = .ok (xs, rest) := by
@@ -219,7 +235,49 @@ theorem header_roundtrip (h : Header) (w : WfHeader h) :
     exact unle_le4 n w.nonce
 
 
+/-- **header_roundtrip (bytes → header → bytes)**: `Serialize(Deserialize(b)) = b` for every
+    80-byte array — `Deserialize` loses nothing and `Serialize` places every field where
+    `Deserialize` reads it. -/
+theorem header_roundtrip_bytes (b : Bytes) (hl : b.length = 80) (hb : ∀ x ∈ b, x < 256) :
+    serializeHeader (deserializeHeader b) = b := by
+  have hsub : ∀ (xs : Bytes), (∀ x ∈ xs, x ∈ b) → ∀ x ∈ xs, x < 256 := fun xs h x hx => hb x (h x hx)
+  have r4 : ∀ (xs : Bytes), xs.length = 4 → (∀ x ∈ xs, x < 256) → le 4 (unle xs) = xs := by
+    intro xs h4 hx
+    have := le_unle xs hx
+    rwa [h4] at this
+  have m1 : ∀ x ∈ b.take 4, x ∈ b := fun x hx => List.mem_of_mem_take hx
+  have m2 : ∀ (k : Nat), ∀ x ∈ (b.drop k).take 4, x ∈ b :=
+    fun k x hx => List.mem_of_mem_drop (List.mem_of_mem_take hx)
+  simp only [serializeHeader, deserializeHeader]
+  rw [r4 (b.take 4) (by simp [hl]) (hsub _ m1),
+    r4 ((b.drop 68).take 4) (by simp [hl]) (hsub _ (m2 68)),
+    r4 ((b.drop 72).take 4) (by simp [hl]) (hsub _ (m2 72)),
+    r4 ((b.drop 76).take 4) (by simp [hl]) (hsub _ (m2 76))]
+  have e76 : (b.drop 76).take 4 = b.drop 76 := List.take_of_length_le (by simp [hl])
+  have sp : ∀ k n : Nat, b.drop k = (b.drop k).take n ++ b.drop (k + n) := by
+    intro k n
+    rw [← List.drop_drop]
+    exact (List.take_append_drop n _).symm
+  have s1 : b.drop 72 = (b.drop 72).take 4 ++ b.drop 76 := sp 72 4
+  have s2 : b.drop 68 = (b.drop 68).take 4 ++ b.drop 72 := sp 68 4
+  have s3 : b.drop 36 = (b.drop 36).take 32 ++ b.drop 68 := sp 36 32
+  have s4 : b.drop 4 = (b.drop 4).take 32 ++ b.drop 36 := sp 4 32
+  have s5 : b = b.take 4 ++ b.drop 4 := (List.take_append_drop 4 b).symm
+  rw [e76]
+  simp only [List.append_assoc]
+  rw [← s1, ← s2, ← s3, ← s4, ← s5]
+
 /-! ## transactions -/
+
+/-- T1 tie: the decode limits measured on the real btcd decoder (Gen/C29.lean) all fit a
+    compact size — the only fact about them the round-trip proofs need — and the script limit is
+    the message payload limit. -/
+theorem limits_small : maxPayload < 18446744073709551616 ∧ maxTxIn < 18446744073709551616 ∧
+    maxTxOut < 18446744073709551616 ∧ maxWitnessItems < 18446744073709551616 ∧
+    maxWitnessItemSize < 18446744073709551616 := by decide
+
+theorem limits_btcd : maxPayload = Gen.C29.maxMessagePayload ∧ maxTxIn = maxPayload / 41 + 1 ∧
+    maxTxOut = maxPayload / 9 + 1 := by decide
 
 theorem readScript_varBytes (mx : Nat) (s rest : Bytes) (h : s.length ≤ mx)
     (h64 : s.length < 18446744073709551616) :
@@ -272,7 +330,7 @@ theorem decTxIn_enc (i : TxIn) (rest : Bytes) (w : WfIn i) :
   simp only []
   rw [readLE_le 4 _ _ w.index]
   simp only []
-  rw [readScript_varBytes _ _ _ w.script (by simp only [maxPayload] at hs; omega)]
+  rw [readScript_varBytes _ _ _ w.script (by have := limits_small; omega)]
   simp only []
   rw [readLE_le 4 _ _ w.sequence]
   rfl
@@ -283,18 +341,18 @@ theorem decTxOut_enc (o : TxOut) (rest : Bytes) (w : WfOut o) :
   have hs := w.script
   rw [List.append_assoc, readLE_le 8 _ _ w.value]
   simp only []
-  rw [readScript_varBytes _ _ _ w.script (by simp only [maxPayload] at hs; omega)]
+  rw [readScript_varBytes _ _ _ w.script (by have := limits_small; omega)]
 
 theorem decWitness_enc (ws : List Bytes) (rest : Bytes) (hc : ws.length ≤ maxWitnessItems)
     (hi : ∀ w ∈ ws, w.length ≤ maxWitnessItemSize) :
     decWitness (encWitness ws ++ rest) = .ok (ws, rest) := by
   unfold decWitness encWitness
-  rw [List.append_assoc, compact_roundtrip _ _ (by simp only [maxWitnessItems] at hc; omega)]
+  rw [List.append_assoc, compact_roundtrip _ _ (by have := limits_small; omega)]
   simp only []
   rw [if_neg (by omega)]
   have := decMany_flatMap varBytesEnc (readScript maxWitnessItemSize) id
     (fun w => w.length ≤ maxWitnessItemSize)
-    (fun x r hx => readScript_varBytes _ x r hx (by simp only [maxWitnessItemSize] at hx; omega))
+    (fun x r hx => readScript_varBytes _ x r hx (by have := limits_small; omega))
     ws rest hi
   rw [this]; simp
 
@@ -336,7 +394,7 @@ theorem deserialize_body (tx : Tx) (wf : WfTx tx) (hne : tx.ins ≠ []) (w : Boo
     cases w
     · simp only [Bool.false_eq_true, if_false, List.nil_append]
       unfold decCount
-      rw [compact_roundtrip _ _ (by simp only [maxTxIn] at hic; omega)]
+      rw [compact_roundtrip _ _ (by have := limits_small; omega)]
       simp only []
       rw [if_neg (by omega)]
     · simp only [if_true]
@@ -345,7 +403,7 @@ theorem deserialize_body (tx : Tx) (wf : WfTx tx) (hne : tx.ins ≠ []) (w : Boo
         simp [csDec]
       rw [h0]
       simp only [if_true]
-      rw [compact_roundtrip _ _ (by simp only [maxTxIn] at hic; omega)]
+      rw [compact_roundtrip _ _ (by have := limits_small; omega)]
       simp
   unfold deserialize
   simp only [List.append_assoc]
@@ -358,7 +416,7 @@ theorem deserialize_body (tx : Tx) (wf : WfTx tx) (hne : tx.ins ≠ []) (w : Boo
   simp only []
   rw [if_neg (by omega), hins _ wf.ins]
   simp only []
-  rw [compact_roundtrip _ _ (by simp only [maxTxOut] at hoc; omega)]
+  rw [compact_roundtrip _ _ (by have := limits_small; omega)]
   simp only []
   rw [if_neg (by omega), houts _ wf.outs]
   simp only [List.map_id]
